@@ -195,6 +195,12 @@ async def run_cases(specs: List[Dict[str, Any]], res: ShardResult, prop: str = "
                 continue
             if idx % 97 == 5:
                 await concurrent_burst(s, res, nonces, 2 + idx % 7)
+            if idx % 29 == 3:
+                # the application re-seeds the process-wide random generator (reproducible strategies do): nonces must
+                # not depend on it
+                import random as _random
+                _random.seed(20240101)
+                res.count("global_rng_reseeded")
             if idx % 41 == 7:
                 s.srv.drop_next = 1       # the peer receives this request and drops the connection without replying
             exp, recs, t0, t1, err = await s.call(spec)
